@@ -191,6 +191,8 @@ def run(ctx):
                                 and tbk.operand(st.rv.ops[1], bi, si) == const(1):
                             why = "cursor payload + 1 (valid row index)"
                         break
+            if why is None and kind in ("assert", "debug_assert") and k == HLL + "::estimate_bias":
+                why = cursor_assert_discharge(f, prog, tbk, bi)
             if why is not None:
                 n_local += 1
                 continue
@@ -236,6 +238,52 @@ def run(ctx):
                                         ctx.check(it == want, "R03-table-index", "%s:%s" % (fk, tname), st2.span, "%s is indexed with self.b - %d" % (tname, lo), "%s is indexed with %s, expected self.b - %d" % (tname, fmt(it), lo))
         if not hit:
             ctx.fail("anchor-missing", "R03-table-index:%s:%s" % (fk, tname), f, "no indexed read of %s found in %s" % (tname, fk))
+
+
+def cursor_assert_discharge(f, prog, tb, bi):
+    """An assertion whose failure would need a cursor payload at or beyond len(row): the payloads of the two cursors are valid row
+    indices (the invariant R03-neighbour-bounds establishes: seeded by neighbor_search_startpoints, every update tested)."""
+    facts = atomic_facts(f, prog, bi, tb)
+    if not facts:
+        return None
+    c, tr = facts[-1]
+
+    def payload_of(x):
+        if x[0] == "call" and x[1].endswith("::unwrap"):
+            return x[2][0]
+        if x[0] == "field" and x[1][0] == "variant":
+            return x[1][1]
+        return None
+
+    def is_cursor(pp):
+        if not (pp is not None and pp[0] == "loopvar" and isinstance(pp[1], int) and f.local_ty(pp[1]).startswith("std::option::Option<usize")):
+            return None
+        init = tb.loop_init(pp[1], pp[2])
+        seeds = [s_ for s_ in subterms(init) if s_[0] == "call" and s_[1].endswith("neighbor_search_startpoints")]
+        return seeds[0][2][0] if seeds else None
+
+    phis = [s_ for s_ in subterms(c) if s_[0] == "phi"]
+    cands = [s_ for s_ in subterms(c) if payload_of(s_) is not None]
+    alts = list(phis[0][1]) if len(phis) == 1 else (cands[:1] if len(cands) == 1 and not phis else [])
+    if not alts:
+        return None
+    whole = phis[0] if len(phis) == 1 else cands[0]
+
+    def subst(t):
+        if t == whole:
+            return x
+        if isinstance(t, tuple):
+            return tuple(subst(y) for y in t)
+        return t
+    for x in alts:
+        row = is_cursor(payload_of(x))
+        if row is None:
+            return None
+        ci = subst(c)
+        ln = [s_ for s_ in subterms(ci) if s_[0] == "call" and s_[1].endswith("::len") and s_[2][0] == row]
+        if not ln or not entails_ge0([(ci, tr)], mk("Sub", x, ln[0])):
+            return None
+    return "the assertion fails only for a cursor payload >= len(row), excluded by the cursor invariant (R03-neighbour-bounds)"
 
 
 def neighbour_bounds(ctx):
